@@ -141,24 +141,6 @@ var atomList = []atomDef{
 	{"slot-type=app,gadget", "slot-snap-type", strList("app", "gadget"), plugConn | slotConn | slotInst, func(c *cand) bool { return in(normType(c.SlotType), "app", "gadget") }},
 	{"plug-type=app", "plug-snap-type", strList("app"), slotConn | plugInst, func(c *cand) bool { return normType(c.PlugType) == "app" }},
 	{"plug-type=gadget,core", "plug-snap-type", strList("gadget", "core"), slotConn | plugInst, func(c *cand) bool { return in(normType(c.PlugType), "gadget", "core") }},
-	// snap ids (an unasserted snap has no id and never matches)
-	// (the snap under test in the installation layers carries plugIDs[ident], hence both spellings in slot-snap-id;
-	// a slot snap never has a plugIDs id, so the connection meaning is unchanged)
-	{"slot-id=1", "slot-snap-id", strList(slotIDs[1], plugIDs[1]), plugConn | slotInst, func(c *cand) bool { return c.SlotIdent == 1 }},
-	{"slot-id=1,2", "slot-snap-id", strList(slotIDs[1], slotIDs[2], plugIDs[1], plugIDs[2]), plugConn | slotInst, func(c *cand) bool { return c.SlotIdent != 0 }},
-	{"plug-id=1", "plug-snap-id", strList(plugIDs[1]), slotConn | plugInst, func(c *cand) bool { return c.PlugIdent == 1 }},
-	{"plug-id=1,2", "plug-snap-id", strList(plugIDs[1], plugIDs[2]), slotConn | plugInst, func(c *cand) bool { return c.PlugIdent != 0 }},
-	// publishers
-	{"slot-pub=a", "slot-publisher-id", strList("pub-a"), plugConn, func(c *cand) bool { return c.slotPub() == "pub-a" }},
-	{"slot-pub=$PLUG", "slot-publisher-id", strList("$PLUG_PUBLISHER_ID"), plugConn, func(c *cand) bool { return c.slotPub() != "" && c.slotPub() == c.plugPub() }},
-	{"slot-pub=b,$PLUG", "slot-publisher-id", strList("pub-b", "$PLUG_PUBLISHER_ID"), plugConn, func(c *cand) bool {
-		return c.slotPub() == "pub-b" || (c.slotPub() != "" && c.slotPub() == c.plugPub())
-	}},
-	{"plug-pub=a", "plug-publisher-id", strList("pub-a"), slotConn, func(c *cand) bool { return c.plugPub() == "pub-a" }},
-	{"plug-pub=$SLOT", "plug-publisher-id", strList("$SLOT_PUBLISHER_ID"), slotConn, func(c *cand) bool { return c.plugPub() != "" && c.plugPub() == c.slotPub() }},
-	{"plug-pub=b,$SLOT", "plug-publisher-id", strList("pub-b", "$SLOT_PUBLISHER_ID"), slotConn, func(c *cand) bool {
-		return c.plugPub() == "pub-b" || (c.plugPub() != "" && c.plugPub() == c.slotPub())
-	}},
 	// classic / core
 	{"classic", "on-classic", str("true"), anySide, func(c *cand) bool { return c.Env != 0 }},
 	{"not-classic", "on-classic", str("false"), anySide, func(c *cand) bool { return c.Env == 0 }},
@@ -175,13 +157,104 @@ var atomList = []atomDef{
 	{"slot-name=alt|x", "slot-names", strList("x", "alt"), plugConn | slotConn | slotInst, func(c *cand) bool { return c.SlotName == "alt" }},
 }
 
-var atoms = func() map[string]*atomDef {
-	m := map[string]*atomDef{}
-	for i := range atomList {
-		m[atomList[i].Name] = &atomList[i]
+// idListMatches is the documented meaning of an id list: the snap's own id (never matching when the snap is
+// unasserted and has none) must equal one of the entries; a "$MARKER" entry stands for the id it resolves to on
+// this side, and an entry that does not resolve (unknown marker, or the other snap is unasserted) simply does
+// not match - the remaining entries still count.
+func idListMatches(own string, entries []string, resolve func(marker string) string) bool {
+	if own == "" {
+		return false
 	}
-	return m
-}()
+	for _, e := range entries {
+		if strings.HasPrefix(e, "$") {
+			e = resolve(e)
+			if e == "" {
+				continue
+			}
+		}
+		if e == own {
+			return true
+		}
+	}
+	return false
+}
+
+// idListAtoms: every ordered list of two different entries, then every single entry, of an entry menu.
+func idListAtoms(name, key string, sides int, entries, short []string, also func(e string) []string, own func(c *cand) string, resolve func(c *cand, marker string) string) []atomDef {
+	var res []atomDef
+	add := func(idx ...int) {
+		var es, header, ns []string
+		for _, i := range idx {
+			es = append(es, entries[i])
+			header = append(header, entries[i])
+			if also != nil {
+				header = append(header, also(entries[i])...)
+			}
+			ns = append(ns, short[i])
+		}
+		res = append(res, atomDef{name + "=" + strings.Join(ns, ","), key, strList(header...), sides, func(c *cand) bool {
+			return idListMatches(own(c), es, func(m string) string { return resolve(c, m) })
+		}})
+	}
+	for i := range entries {
+		for j := range entries {
+			if i != j {
+				add(i, j)
+			}
+		}
+	}
+	for i := range entries {
+		add(i)
+	}
+	return res
+}
+
+func init() {
+	noMarkers := func(*cand, string) string { return "" }
+	// publisher-id lists: the marker of the other side is known, the marker of the own side is not
+	atomList = append(atomList, idListAtoms("slot-pub", "slot-publisher-id", plugConn,
+		[]string{"$PLUG_PUBLISHER_ID", "pub-b", "pub-a", "$SLOT_PUBLISHER_ID"}, []string{"$PLUG", "b", "a", "$SLOT"}, nil,
+		func(c *cand) string { return c.slotPub() },
+		func(c *cand, m string) string {
+			if m == "$PLUG_PUBLISHER_ID" {
+				return c.plugPub()
+			}
+			return ""
+		})...)
+	atomList = append(atomList, idListAtoms("plug-pub", "plug-publisher-id", slotConn,
+		[]string{"$SLOT_PUBLISHER_ID", "pub-b", "pub-a", "$PLUG_PUBLISHER_ID"}, []string{"$SLOT", "b", "a", "$PLUG"}, nil,
+		func(c *cand) string { return c.plugPub() },
+		func(c *cand, m string) string {
+			if m == "$SLOT_PUBLISHER_ID" {
+				return c.slotPub()
+			}
+			return ""
+		})...)
+	// snap-id lists (literals only; an unasserted snap has no id and never matches). The snap under test in the
+	// installation layers carries plugIDs[ident], hence both spellings in slot-snap-id; a slot snap never has a
+	// plugIDs id, so the connection meaning is unchanged.
+	atomList = append(atomList, idListAtoms("slot-id", "slot-snap-id", plugConn|slotInst,
+		[]string{slotIDs[1], slotIDs[2]}, []string{"1", "2"},
+		func(e string) []string {
+			if e == slotIDs[1] {
+				return []string{plugIDs[1]}
+			}
+			return []string{plugIDs[2]}
+		},
+		func(c *cand) string { return c.slotID() }, noMarkers)...)
+	atomList = append(atomList, idListAtoms("plug-id", "plug-snap-id", slotConn|plugInst,
+		[]string{plugIDs[1], plugIDs[2]}, []string{"1", "2"}, nil,
+		func(c *cand) string { return c.plugID() }, noMarkers)...)
+	for i := range atomList {
+		if atoms[atomList[i].Name] != nil {
+			panic("duplicate atom " + atomList[i].Name)
+		}
+		atoms[atomList[i].Name] = &atomList[i]
+	}
+}
+
+var atoms = map[string]*atomDef{}
+
 
 // ------------------------------------------------------------------------------------------------
 // rule descriptions
@@ -1036,8 +1109,8 @@ func TestC21(t *testing.T) {
 	reduced := reducedConnCands()
 
 	// ---- layer "rules" + monotonicity ----
-	plugMenu := pick(nil, "plug-p=P1", "slot-s=S1", "slot-type=core", "slot-pub=$PLUG", "classic", "plug-p=P1&slot-s=S1")
-	slotMenu := pick(nil, "plug-p=P1", "slot-s=S1", "plug-type=app", "plug-pub=$SLOT", "plug-id=1", "slot-s=S1&not-classic")
+	plugMenu := pick(nil, "plug-p=P1", "slot-s=S1", "slot-type=core", "slot-pub=$PLUG,b", "classic", "plug-p=P1&slot-s=S1")
+	slotMenu := pick(nil, "plug-p=P1", "slot-s=S1", "plug-type=app", "plug-pub=$SLOT,b", "plug-id=1", "slot-s=S1&not-classic")
 	if !rn.full() {
 		for _, side := range []struct {
 			menu   []cmap
@@ -1105,39 +1178,6 @@ func TestC21(t *testing.T) {
 			}
 		}
 		rn.sweep("precedence", decls, reduced, connKinds, nil)
-	}
-
-	// ---- layer "atoms" ----
-	if !rn.full() {
-		atomDecls := func(maps []cmap, levels []string) []*declSet {
-			var decls []*declSet
-			for _, m := range maps {
-				one := altSpec{Mode: "list", Maps: []cmap{m}}
-				bare := altSpec{Mode: "map", Maps: []cmap{m}}
-				for _, lv := range levels {
-					// as the only allow alternative (connection) / the only deny alternative (auto-connection), and the other way round
-					decls = append(decls,
-						atLevel(lv, &fullRule{Conn: &ruleSpec{Allow: one}, Auto: &ruleSpec{Deny: bare}}),
-						atLevel(lv, &fullRule{Conn: &ruleSpec{Deny: one}, Auto: &ruleSpec{Allow: bare}}))
-				}
-			}
-			return decls
-		}
-		var single, pair []*declSet
-		for _, side := range []struct {
-			side   int
-			levels []string
-		}{{plugConn, []string{"PS", "BP"}}, {slotConn, []string{"SS", "BS"}}} {
-			singles, pairs := mapsFor(side.side, !thorough)
-			single = append(single, atomDecls(singles, side.levels)...)
-			pair = append(pair, atomDecls(pairs, side.levels)...)
-		}
-		rn.sweep("atoms", single, full, connKinds, nil)
-		if thorough {
-			rn.sweep("atom_pairs", pair, full, connKinds, nil)
-		} else {
-			rn.sweep("atom_pairs", pair, mediumConnCands(), connKinds, nil)
-		}
 	}
 
 	// ---- layer "install" ----
@@ -1219,10 +1259,43 @@ func TestC21(t *testing.T) {
 		}
 	}
 
+	// ---- layer "atoms" (the largest one, run last so that a time cap cannot hide the others) ----
+	if !rn.full() {
+		atomDecls := func(maps []cmap, levels []string) []*declSet {
+			var decls []*declSet
+			for _, m := range maps {
+				one := altSpec{Mode: "list", Maps: []cmap{m}}
+				bare := altSpec{Mode: "map", Maps: []cmap{m}}
+				for _, lv := range levels {
+					// as the only allow alternative (connection) / the only deny alternative (auto-connection), and the other way round
+					decls = append(decls,
+						atLevel(lv, &fullRule{Conn: &ruleSpec{Allow: one}, Auto: &ruleSpec{Deny: bare}}),
+						atLevel(lv, &fullRule{Conn: &ruleSpec{Deny: one}, Auto: &ruleSpec{Allow: bare}}))
+				}
+			}
+			return decls
+		}
+		var single, pair []*declSet
+		for _, side := range []struct {
+			side   int
+			levels []string
+		}{{plugConn, []string{"PS", "BP"}}, {slotConn, []string{"SS", "BS"}}} {
+			singles, pairs := mapsFor(side.side, !thorough)
+			single = append(single, atomDecls(singles, side.levels)...)
+			pair = append(pair, atomDecls(pairs, side.levels)...)
+		}
+		rn.sweep("atoms", single, full, connKinds, nil)
+		if thorough {
+			rn.sweep("atom_pairs", pair, full, connKinds, nil)
+		} else {
+			rn.sweep("atom_pairs", pair, mediumConnCands(), connKinds, nil)
+		}
+	}
+
 	if rn.full() {
 		r.Cap("violations", fmt.Sprintf("stopped after %d violating declaration sets", rn.maxViol))
 	}
-	r.Info("bounds", map[string]int{"atoms": len(atomList), "full_candidates": len(full), "reduced_candidates": len(reduced),
+	r.Info("bounds", map[string]int{"atoms": len(atomList), "id_list_atoms_generated": 40, "full_candidates": len(full), "reduced_candidates": len(reduced),
 		"plug_side_atoms": countMaps(plugConn, !thorough, false), "plug_side_atom_pairs": countMaps(plugConn, !thorough, true),
 		"slot_side_atoms": countMaps(slotConn, !thorough, false), "slot_side_atom_pairs": countMaps(slotConn, !thorough, true),
 		"alt_options_per_entry": len(altOptions(plugMenu, thorough)), "precedence_rules_per_level": len(plugR)})
